@@ -538,4 +538,550 @@ theorem refused_write_pure (d : Device) (r : WriteReq) (e : Refusal)
               simp [setObj_self _ _ _ hobj]
             · rcases hcase with ⟨_, hobjw⟩ | ⟨nv, _, hobjw⟩ <;> (rw [hobjw] at href; simp at href)
 
+
+/-! ## error_matches: each refusal is returned under its stated condition -/
+
+/-- the property classes whose reads and writes go through `Property.ReadProperty` -/
+def isStd (c : Custom) : Prop := c = .std ∨ c = .objId ∨ c = .wrName
+
+theorem unknown_object_read (d : Device) (oid : Oid) (pid : Nat) (idx : Option Nat)
+    (h : findObj (resolveOid d oid) d.objs = none) :
+    readService d oid pid idx = .error .unknownObject := by
+  simp [readService, h]
+
+theorem unknown_object_write (d : Device) (r : WriteReq) (h : findObj r.oid d.objs = none) :
+    writeService d r = (d, .error .unknownObject) := by
+  simp [writeService, h]
+
+theorem unknown_property_read (d : Device) (oid : Oid) (pid : Nat) (idx : Option Nat) (o : Object)
+    (ho : findObj (resolveOid d oid) d.objs = some o) (hs : findSlot pid o.props = none) :
+    readService d oid pid idx = .error .unknownProperty := by
+  simp [readService, ho, hs]
+
+theorem unknown_property_write (d : Device) (r : WriteReq) (o : Object)
+    (ho : findObj r.oid d.objs = some o) (hs : findSlot r.pid o.props = none) :
+    writeService d r = (d, .error .unknownProperty) := by
+  simp [writeService, ho, objRead, hs]
+
+/-- a property of the table that has no value is "unknown" too (read) -/
+theorem absent_property_read (d : Device) (oid : Oid) (pid : Nat) (idx : Option Nat) (o : Object) (s : Slot)
+    (ho : findObj (resolveOid d oid) d.objs = some o) (hs : findSlot pid o.props = some s)
+    (hc : isStd s.d.custom) (habs : s.v = .absent) (hidx : idx = none ∨ s.d.dt.isArray = true) :
+    readService d oid pid idx = .error .unknownProperty := by
+  simp only [readService, ho, hs, propRead_eq_stdRead _ _ _ hc]
+  rcases hidx with h | h
+  · subst h; simp [stdRead, habs, rpEncode]
+  · cases idx <;> simp [stdRead, habs, rpEncode, h]
+
+theorem absent_property_write (d : Device) (r : WriteReq) (o : Object) (s : Slot)
+    (ho : findObj r.oid d.objs = some o) (hs : findSlot r.pid o.props = some s)
+    (hc : isStd s.d.custom) (habs : s.v = .absent) (hidx : r.idx = none ∨ s.d.dt.isArray = true) :
+    writeService d r = (d, .error .unknownProperty) := by
+  simp only [writeService, ho, objRead, hs, propRead_eq_stdRead _ _ _ hc]
+  rcases hidx with h | h
+  · simp [h, stdRead, habs]
+  · cases hi : r.idx <;> simp [stdRead, habs, h]
+
+theorem propRead_not_array (o : Object) (s : Slot) (i : Nat)
+    (hc : s.d.custom ≠ .propList) (hna : s.d.dt.isArray = false) :
+    propRead o s (some i) = .error .notAnArray := by
+  unfold propRead
+  cases hcu : s.d.custom with
+  | propList => exact absurd hcu hc
+  | computed v => simp
+  | std => simp [stdRead, hna]
+  | objId => simp [stdRead, hna]
+  | wrName => simp [stdRead, hna]
+
+/-- an array index on a property that is not an array (read) -/
+theorem not_an_array_read (d : Device) (oid : Oid) (pid i : Nat) (o : Object) (s : Slot)
+    (ho : findObj (resolveOid d oid) d.objs = some o) (hs : findSlot pid o.props = some s)
+    (hc : s.d.custom ≠ .propList) (hna : s.d.dt.isArray = false) :
+    readService d oid pid (some i) = .error .notAnArray := by
+  simp [readService, ho, hs, propRead_not_array o s i hc hna]
+
+theorem not_an_array_write (d : Device) (r : WriteReq) (i : Nat) (o : Object) (s : Slot)
+    (ho : findObj r.oid d.objs = some o) (hs : findSlot r.pid o.props = some s)
+    (hi : r.idx = some i) (hc : s.d.custom ≠ .propList) (hna : s.d.dt.isArray = false) :
+    writeService d r = (d, .error .notAnArray) := by
+  simp [writeService, ho, objRead, hs, hi, propRead_not_array o s i hc hna]
+
+/-- an index beyond the current length (read) -/
+theorem invalid_array_index_read (d : Device) (oid : Oid) (pid i : Nat) (o : Object) (s : Slot)
+    (its : List Item)
+    (ho : findObj (resolveOid d oid) d.objs = some o) (hs : findSlot pid o.props = some s)
+    (hc : isStd s.d.custom) (harr : s.d.dt.isArray = true) (hv : s.v = .arr its)
+    (hi : i > its.length) :
+    readService d oid pid (some i) = .error .invalidArrayIndex := by
+  simp [readService, ho, hs, propRead_eq_stdRead _ _ _ hc, stdRead, harr, hv, arrayGet, hi]
+
+theorem invalid_array_index_write (d : Device) (r : WriteReq) (i : Nat) (o : Object) (s : Slot)
+    (its : List Item)
+    (ho : findObj r.oid d.objs = some o) (hs : findSlot r.pid o.props = some s)
+    (hidx : r.idx = some i)
+    (hc : isStd s.d.custom) (harr : s.d.dt.isArray = true) (hv : s.v = .arr its)
+    (hi : i > its.length) :
+    writeService d r = (d, .error .invalidArrayIndex) := by
+  simp [writeService, ho, objRead, hs, hidx, propRead_eq_stdRead _ _ _ hc, stdRead, harr, hv,
+    arrayGet, hi]
+
+/-- a value that does not decode as the datatype of the property is refused
+    with a Reject — never acknowledged, never "operational problem" -/
+theorem castOut_error_is_reject (dt : DT) (idx : Option Nat) (w : Wire) (e : Refusal)
+    (h : castOut dt idx w = .error e) : ∃ n, e = .reject n := by
+  have hAtom : ∀ (mk : Tag → Except Refusal Item),
+      (∀ t e, mk t = .error e → ∃ n, e = .reject n) →
+      ∀ ts e, castAtom mk ts = .error e → ∃ n, e = .reject n := by
+    intro mk hmk ts e h
+    unfold castAtom at h
+    split at h
+    · simp [decodeFailure] at h; exact ⟨_, h.symm⟩
+    · exact hmk _ _ h
+    · simp [decodeFailure] at h; exact ⟨_, h.symm⟩
+  have hSeq : ∀ (mk : Tag → Except Refusal Item),
+      (∀ t e, mk t = .error e → ∃ n, e = .reject n) →
+      ∀ ts e, castAtomSeq mk ts = .error e → ∃ n, e = .reject n := by
+    intro mk hmk ts
+    induction ts with
+    | nil => intro e h; simp [castAtomSeq] at h
+    | cons t rest ih =>
+      intro e h
+      unfold castAtomSeq at h
+      split at h
+      · simp [decodeFailure] at h; exact ⟨_, h.symm⟩
+      · split at h
+        · rename_i r hr; simp at h; subst h; exact hmk _ _ hr
+        · split at h
+          · rename_i r hr; simp at h; subst h; exact ih _ hr
+          · simp at h
+  have hA : ∀ tag t e, atomOfTag tag t = .error e → ∃ n, e = .reject n := by
+    intro tag t e h; unfold atomOfTag at h; split at h <;> simp at h; exact ⟨_, h.symm⟩
+  have hB : ∀ t e, anyAtomOfTag t = .error e → ∃ n, e = .reject n := by
+    intro t e h; unfold anyAtomOfTag at h; split at h <;> simp [decodeFailure] at h; exact ⟨_, h.symm⟩
+  have hDec : ∀ dc r, decRefusal dc = some r → ∃ n, r = .reject n := by
+    intro dc r h
+    cases dc <;> simp [decRefusal, decodeFailure] at h
+    · exact ⟨_, h.symm⟩
+    · exact ⟨_, h.symm⟩
+  have hElem : ∀ el e, castElem el w = .error e → ∃ n, e = .reject n := by
+    intro el e h
+    unfold castElem at h
+    split at h
+    · rename_i tag _ _
+      cases hc : castAtom (atomOfTag tag) w.tags with
+      | error r => simp [hc, Except.map] at h; subst h; exact hAtom _ (hA tag) _ _ hc
+      | ok it => simp [hc, Except.map] at h
+    · cases hc : castAtom anyAtomOfTag w.tags with
+      | error r => simp [hc, Except.map] at h; subst h; exact hAtom _ hB _ _ hc
+      | ok it => simp [hc, Except.map] at h
+    · split at h
+      · rename_i r hr; simp at h; subst h; exact hDec _ _ hr
+      · simp at h
+  have hS : ∀ el fixed e, castSeq el fixed w = .error e → ∃ n, e = .reject n := by
+    intro el fixed e h
+    unfold castSeq at h
+    simp only at h
+    split at h
+    · rename_i r hr
+      simp at h; subst h
+      cases el with
+      | atomic tag lo hi => exact hSeq _ (hA tag) _ _ hr
+      | anyAtomic => exact hSeq _ hB _ _ hr
+      | cons ty =>
+        simp only at hr
+        split at hr
+        · rename_i r' hr'; simp at hr; subst hr; exact hDec _ _ hr'
+        · simp at hr
+    · cases fixed with
+      | none => simp at h
+      | some n =>
+        simp only at h
+        split at h
+        · simp at h
+        · simp [decodeFailure] at h; exact ⟨_, h.symm⟩
+  unfold castOut at h
+  split at h
+  · simp at h
+  · split at h
+    · exact hElem _ _ h
+    · exact hElem _ _ h
+    · exact hS _ _ _ h
+    · exact hS _ _ _ h
+    · exact hElem _ _ h
+
+/-- the validation ladder refuses with Reject(invalid-parameter-datatype) or,
+    for an index on a list, property-is-not-an-array -/
+theorem ladder_error (dt : DT) (v : WVal) (idx : Option Nat) (e : Refusal)
+    (h : ladder dt v idx = .error e) : e = invalidDatatype ∨ e = .notAnArray := by
+  unfold ladder at h
+  repeat' split at h
+  all_goals first
+    | (simp at h; exact Or.inl h.symm)
+    | (simp at h; exact Or.inr h.symm)
+    | simp at h
+
+/-- a write to a property that is not mutable is refused with
+    write-access-denied, whatever the (decodable) value -/
+theorem write_access_denied (d : Device) (r : WriteReq) (o : Object) (s : Slot) (v : WVal) (rv : RVal)
+    (ho : findObj r.oid d.objs = some o) (hplain : o.cmd = none)
+    (hs : findSlot r.pid o.props = some s)
+    (hc : s.d.custom = .std ∨ s.d.custom = .objId)
+    (hpre : propRead o s r.idx = .ok rv) (hrv : rv ≠ .none)          -- present, index in range
+    (hdec : castOut s.d.dt r.idx r.value = .ok v)                      -- the value decodes
+    (hro : s.d.mutable = false) :
+    writeService d r = (d, .error .writeAccessDenied) := by
+  have h1 : objRead o r.pid r.idx = .ok rv := by simp [objRead, hs, hpre]
+  have h2 : objWrite d o r.pid v r.idx r.prio = (o, .error .writeAccessDenied) := by
+    simp only [objWrite, hplain, objWritePlain, hs]
+    have : propWrite d o s v r.idx = .error .writeAccessDenied := by
+      rcases hc with hc | hc
+      · simp [propWrite, hc, stdWrite, hro, Except.map]
+      · simp [propWrite, hc, hro]
+    simp [this]
+  cases rv with
+  | none => exact absurd rfl hrv
+  | whole _ | len _ | elem _ =>
+    simp [writeService, ho, h1, hs, hdec, h2, setObj_self _ _ _ ho]
+
+/-- the serving classes that never accept a write -/
+theorem write_access_denied_custom (d : Device) (r : WriteReq) (o : Object) (s : Slot) (v : WVal) (rv : RVal)
+    (ho : findObj r.oid d.objs = some o) (hplain : o.cmd = none)
+    (hs : findSlot r.pid o.props = some s)
+    (hc : s.d.custom = .propList ∨ ∃ val, s.d.custom = .computed val)
+    (hpre : propRead o s r.idx = .ok rv) (hrv : rv ≠ .none)
+    (hdec : castOut s.d.dt r.idx r.value = .ok v) :
+    writeService d r = (d, .error .writeAccessDenied) := by
+  have h1 : objRead o r.pid r.idx = .ok rv := by simp [objRead, hs, hpre]
+  have h2 : objWrite d o r.pid v r.idx r.prio = (o, .error .writeAccessDenied) := by
+    simp only [objWrite, hplain, objWritePlain, hs]
+    have : propWrite d o s v r.idx = .error .writeAccessDenied := by
+      rcases hc with hc | ⟨val, hc⟩ <;> simp [propWrite, hc]
+    simp [this]
+  cases rv with
+  | none => exact absurd rfl hrv
+  | whole _ | len _ | elem _ =>
+    simp [writeService, ho, h1, hs, hdec, h2, setObj_self _ _ _ ho]
+
+
+/-! ## array_index_classes -/
+
+/-- **array_index_classes** for an array property served by `Property.ReadProperty`:
+    index 0 answers the length, indexes 1..n the elements, anything else
+    invalid-array-index. -/
+theorem array_index_classes (d : Device) (oid : Oid) (pid : Nat) (o : Object) (s : Slot)
+    (its : List Item)
+    (ho : findObj (resolveOid d oid) d.objs = some o) (hs : findSlot pid o.props = some s)
+    (hc : isStd s.d.custom) (harr : s.d.dt.isArray = true) (hv : s.v = .arr its) :
+    readService d oid pid (some 0) = .ok [appTag 2 (natOctets its.length)] ∧
+    (∀ i (h1 : 1 ≤ i) (h2 : i ≤ its.length),
+        readService d oid pid (some i) = encItem (its[i - 1]'(by omega))) ∧
+    (∀ i, i > its.length → readService d oid pid (some i) = .error .invalidArrayIndex) := by
+  refine ⟨?_, ?_, ?_⟩
+  · simp [readService, ho, hs, propRead_eq_stdRead _ _ _ hc, stdRead, harr, hv, arrayGet, rpEncode,
+      encItem, unsignedItem]
+  · intro i h1 h2
+    have hk : i - 1 < its.length := by omega
+    have hne : i ≠ 0 := by omega
+    have hnl : ¬ i > its.length := by omega
+    simp [readService, ho, hs, propRead_eq_stdRead _ _ _ hc, stdRead, harr, hv, arrayGet, rpEncode,
+      hne, hnl, List.getElem?_eq_getElem hk]
+  · intro i hi
+    exact invalid_array_index_read d oid pid i o s its ho hs hc harr hv hi
+
+/-- the same three classes for `CurrentPropertyList` (the computed propertyList) -/
+theorem array_index_classes_propertyList (d : Device) (oid : Oid) (pid : Nat) (o : Object) (s : Slot)
+    (ho : findObj (resolveOid d oid) d.objs = some o) (hs : findSlot pid o.props = some s)
+    (hc : s.d.custom = .propList) :
+    let ids := (listedProps o.props).map fun p => enumItem p.id
+    readService d oid pid (some 0) = .ok [appTag 2 (natOctets ids.length)] ∧
+    (∀ i (h1 : 1 ≤ i) (h2 : i ≤ ids.length),
+        readService d oid pid (some i) = encItem (ids[i - 1]'(by omega))) ∧
+    (∀ i, i > ids.length → readService d oid pid (some i) = .error .invalidArrayIndex) := by
+  intro ids
+  refine ⟨?_, ?_, ?_⟩
+  · simp [readService, ho, hs, propRead, hc, propListRead, rpEncode, encItem, unsignedItem, ids]
+  · intro i h1 h2
+    have hk : i - 1 < ids.length := by omega
+    have hne : i ≠ 0 := by omega
+    have hnl : ¬ i > ids.length := by omega
+    have hnl' : ¬ (listedProps o.props).length < i := by simpa [ids] using hnl
+    have hk' : i - 1 < (listedProps o.props).length := by simpa [ids] using hk
+    simp [readService, ho, hs, propRead, hc, propListRead, rpEncode, hne, hnl', ids,
+      List.getElem?_eq_getElem hk']
+  · intro i hi
+    have hne : i ≠ 0 := by omega
+    have hi' : (listedProps o.props).length < i := by simpa [ids] using hi
+    simp [readService, ho, hs, propRead, hc, propListRead, hne, hi']
+
+
+/-! ## rpm_equals_rp -/
+
+/-- which kind of value `prop.ReadProperty` returns for which index -/
+def shapeOK (idx : Option Nat) : RVal → Prop
+  | .none => True
+  | .whole _ => idx = none
+  | .len _ => idx = some 0
+  | .elem _ => ∃ i, idx = some i
+
+theorem arrayGet_shape (its : List Item) (i : Nat) (rv : RVal) (h : arrayGet its i = .ok rv) :
+    shapeOK (some i) rv := by
+  unfold arrayGet at h
+  split at h
+  · simp at h
+  · split at h
+    · rename_i h0; simp at h; subst h; simp [shapeOK, h0]
+    · split at h <;> simp at h
+      subst h; exact ⟨i, rfl⟩
+
+theorem stdRead_shape (s : Slot) (idx : Option Nat) (rv : RVal) (h : stdRead s idx = .ok rv) :
+    shapeOK idx rv := by
+  unfold stdRead at h
+  cases idx with
+  | none =>
+    simp only at h
+    split at h <;> (simp at h; subst h; simp [shapeOK])
+  | some i =>
+    simp only at h
+    split at h
+    · simp at h
+    · split at h
+      · simp at h; subst h; trivial
+      · exact arrayGet_shape _ _ _ h
+      · simp at h
+
+theorem propRead_shape (o : Object) (s : Slot) (idx : Option Nat) (rv : RVal)
+    (h : propRead o s idx = .ok rv) : shapeOK idx rv := by
+  unfold propRead at h
+  split at h
+  · -- CurrentPropertyList
+    unfold propListRead at h
+    cases idx with
+    | none => simp at h; subst h; rfl
+    | some i =>
+      simp only at h
+      split at h
+      · rename_i h0; simp at h; subst h; simp [shapeOK, h0]
+      · split at h
+        · simp at h
+        · split at h <;> simp at h
+          subst h; exact ⟨i, rfl⟩
+  · cases idx with
+    | none => simp at h; subst h; rfl
+    | some i => simp at h
+  · exact stdRead_shape s idx rv h
+
+/-- the two copies of the "make it encodeable" code agree on everything
+    `ReadProperty` can return -/
+theorem rpmEncode_eq_rpEncode (o : Object) (s : Slot) (idx : Option Nat) (rv : RVal)
+    (h : propRead o s idx = .ok rv) : rpmEncode s.d.dt idx rv = rpEncode s.d.dt idx rv := by
+  have hsh := propRead_shape o s idx rv h
+  cases rv with
+  | none => rfl
+  | len n => simp only [shapeOK] at hsh; subst hsh; simp [rpmEncode, rpEncode]
+  | elem it => simp only [shapeOK] at hsh; obtain ⟨i, hi⟩ := hsh; subst hi; simp [rpmEncode, rpEncode]
+  | whole v =>
+    simp only [shapeOK] at hsh; subst hsh
+    unfold rpmEncode rpEncode
+    cases s.d.dt <;> cases v <;> simp
+
+/-- the part of `do_ReadPropertyRequest` after the object was found -/
+def readObject (o : Object) (pid : Nat) (idx : Option Nat) : Except Refusal (List Tag) :=
+  match findSlot pid o.props with
+  | none => .error .unknownProperty
+  | some s =>
+    match propRead o s idx with
+    | .error r => .error r
+    | .ok rv => rpEncode s.d.dt idx rv
+
+theorem readService_eq (d : Device) (oid : Oid) (pid : Nat) (idx : Option Nat) :
+    readService d oid pid idx =
+      match findObj (resolveOid d oid) d.objs with
+      | none => .error .unknownObject
+      | some o => readObject o pid idx := by
+  unfold readService readObject
+  rfl
+
+/-- `read_property_to_any` computes what `do_ReadPropertyRequest` computes -/
+theorem readToAny_eq (o : Object) (pid : Nat) (idx : Option Nat) :
+    readToAny o pid idx = readObject o pid idx := by
+  unfold readToAny readObject
+  cases hs : findSlot pid o.props with
+  | none => rfl
+  | some s =>
+    cases hp : propRead o s idx with
+    | error r => simp [hp]
+    | ok rv => simp [hp, rpmEncode_eq_rpEncode o s idx rv hp]
+
+theorem resolveOid_idem (d : Device) (oid : Oid) : resolveOid d (resolveOid d oid) = resolveOid d oid := by
+  unfold resolveOid
+  by_cases h : oid = (otDevice, wildcardInstance)
+  · subst h
+    cases hl : d.localDev with
+    | none => simp [hl]
+    | some l =>
+      simp only [hl, ↓reduceIte]
+      split <;> rfl
+  · simp [h]
+
+/-- an element of a ReadPropertyMultiple answer says what ReadProperty answers
+    for the same object, property and index: the same value tags, or the same
+    error -/
+def ElemAgrees (d : Device) (oid : Oid) (e : RElem) : Prop :=
+  match e.res with
+  | .val t => readService d oid e.pid e.idx = .ok t
+  | .err r => readService d oid e.pid e.idx = .error r
+
+theorem readToElem_agrees (d : Device) (oid : Oid) (pid : Nat) (idx : Option Nat) (e : RElem)
+    (h : readToElem (findObj (resolveOid d oid) d.objs) pid idx = .ok e) :
+    e.pid = pid ∧ e.idx = idx ∧ ElemAgrees d oid e := by
+  unfold readToElem at h
+  cases ho : findObj (resolveOid d oid) d.objs with
+  | none =>
+    simp [ho] at h; subst h
+    simp [ElemAgrees, readService_eq, ho]
+  | some o =>
+    simp only [ho, readToAny_eq] at h
+    cases hr : readObject o pid idx with
+    | ok tags =>
+      simp [hr] at h; subst h
+      simp [ElemAgrees, readService_eq, ho, hr]
+    | error r =>
+      simp only [hr] at h
+      split at h
+      · simp at h; subst h
+        simp [ElemAgrees, readService_eq, ho, hr]
+      · simp at h
+
+/-- a read that cannot be embedded fails the whole request with the very
+    refusal ReadProperty gives -/
+theorem readToElem_error (d : Device) (oid : Oid) (pid : Nat) (idx : Option Nat) (r : Refusal)
+    (h : readToElem (findObj (resolveOid d oid) d.objs) pid idx = .error r) :
+    r.isExec = false ∧ readService d oid pid idx = .error r := by
+  unfold readToElem at h
+  cases ho : findObj (resolveOid d oid) d.objs with
+  | none => simp [ho] at h
+  | some o =>
+    simp only [ho, readToAny_eq] at h
+    cases hr : readObject o pid idx with
+    | ok tags => simp [hr] at h
+    | error r' =>
+      simp only [hr] at h
+      split at h
+      · simp at h
+      · rename_i hne
+        simp at h; subst h
+        exact ⟨by simpa using hne, by simp [readService_eq, ho, hr]⟩
+
+theorem expandSel_agrees (d : Device) (oid : Oid) (o : Object) (sel : Nat) (idx : Option Nat)
+    (ho : findObj (resolveOid d oid) d.objs = some o) :
+    ∀ (props : List Slot) (es : List RElem), expandSel o sel idx props = .ok es →
+      ∀ e ∈ es, e.idx = idx ∧ ElemAgrees d oid e := by
+  intro props
+  induction props with
+  | nil => intro es h; simp [expandSel] at h; subst h; simp
+  | cons s rest ih =>
+    intro es h
+    unfold expandSel at h
+    split at h
+    · cases he : readToElem (some o) s.d.id idx with
+      | error r => simp [he] at h
+      | ok e0 =>
+        simp only [he] at h
+        cases hrest : expandSel o sel idx rest with
+        | error r => simp [hrest] at h
+        | ok es' =>
+          simp only [hrest] at h
+          have h0 := readToElem_agrees d oid s.d.id idx e0 (by rw [ho]; exact he)
+          split at h
+          · simp at h; subst h; exact ih es' hrest
+          · simp at h; subst h
+            intro e hmem
+            simp only [List.mem_cons] at hmem
+            rcases hmem with rfl | hmem
+            · exact ⟨h0.2.1, h0.2.2⟩
+            · exact ih es' hrest e hmem
+    · exact ih es h
+
+theorem rpmRef_agrees (d : Device) (oid : Oid) (r : PropRef) (es : List RElem)
+    (h : rpmRef (findObj (resolveOid d oid) d.objs) r = .ok es) :
+    ∀ e ∈ es, e.idx = r.idx ∧ ElemAgrees d oid e := by
+  unfold rpmRef at h
+  split at h
+  · cases ho : findObj (resolveOid d oid) d.objs with
+    | none =>
+      simp [ho] at h; subst h
+      intro e hmem
+      simp at hmem; subst hmem
+      simp [ElemAgrees, readService_eq, ho]
+    | some o =>
+      simp only [ho] at h
+      exact expandSel_agrees d oid o r.pid r.idx ho _ _ h
+  · cases he : readToElem (findObj (resolveOid d oid) d.objs) r.pid r.idx with
+    | error e => simp [he] at h
+    | ok e0 =>
+      simp [he] at h; subst h
+      have := readToElem_agrees d oid r.pid r.idx e0 he
+      intro e hmem
+      simp at hmem; subst hmem
+      exact ⟨this.2.1, this.2.2⟩
+
+theorem rpmRefs_agrees (d : Device) (oid : Oid) :
+    ∀ (refs : List PropRef) (es : List RElem),
+      rpmRefs (findObj (resolveOid d oid) d.objs) refs = .ok es → ∀ e ∈ es, ElemAgrees d oid e := by
+  intro refs
+  induction refs with
+  | nil => intro es h; simp [rpmRefs] at h; subst h; simp
+  | cons r rest ih =>
+    intro es h
+    unfold rpmRefs at h
+    cases h1 : rpmRef (findObj (resolveOid d oid) d.objs) r with
+    | error e => simp [h1] at h
+    | ok es1 =>
+      cases h2 : rpmRefs (findObj (resolveOid d oid) d.objs) rest with
+      | error e => simp [h1, h2] at h
+      | ok es2 =>
+        simp [h1, h2] at h; subst h
+        intro e hmem
+        simp only [List.mem_append] at hmem
+        rcases hmem with hmem | hmem
+        · exact (rpmRef_agrees d oid r es1 h1 e hmem).2
+        · exact ih es2 h2 e hmem
+
+theorem ElemAgrees_resolve (d : Device) (oid : Oid) (e : RElem) (h : ElemAgrees d oid e) :
+    ElemAgrees d (resolveOid d oid) e := by
+  unfold ElemAgrees at h ⊢
+  simp only [readService_eq, resolveOid_idem] at h ⊢
+  exact h
+
+/-- **rpm_equals_rp**: when `do_ReadPropertyMultipleRequest` answers with an
+    ack, every element of every result — explicit references and the expansions
+    of `all` / `required` / `optional` alike — is exactly what
+    `do_ReadPropertyRequest` answers for the object identifier of that result
+    and the element's property and index: the same value tags or, embedded, the
+    same error. -/
+theorem rpm_equals_rp (d : Device) :
+    ∀ (specs : List (Oid × List PropRef)) (res : List (Oid × List RElem)),
+      rpmService d specs = .ok res → ∀ p ∈ res, ∀ e ∈ p.2, ElemAgrees d p.1 e := by
+  intro specs
+  induction specs with
+  | nil => intro res h; simp [rpmService] at h; subst h; simp
+  | cons sp rest ih =>
+    obtain ⟨oid, refs⟩ := sp
+    intro res h
+    unfold rpmService at h
+    simp only at h
+    cases h1 : rpmRefs (findObj (resolveOid d oid) d.objs) refs with
+    | error e => simp [h1] at h
+    | ok es =>
+      cases h2 : rpmService d rest with
+      | error e => simp [h1, h2] at h
+      | ok more =>
+        simp [h1, h2] at h; subst h
+        intro p hmem
+        simp only [List.mem_cons] at hmem
+        rcases hmem with rfl | hmem
+        · intro e he
+          exact ElemAgrees_resolve d oid e (rpmRefs_agrees d oid refs es h1 e he)
+        · exact ih more h2 p hmem
+
 end BacVerif.C15
